@@ -35,6 +35,7 @@ func TestCheck(t *testing.T) {
 	r.Assume("1 unit = 1 ms of virtual time; thresholds are >= 1 unit (bb_worker hard-codes 100 ms; a zero threshold makes the re-arm loop spin and is outside the domain)")
 	r.Assume("decided on the simulated base clock only; OS scheduling jitter between a base timer firing and its handling is not modelled (the driver waits for quiescence after every firing)")
 	r.Assume("concurrent rounds: a reader certainly has the clock suspended from the return of its suspending call to the call of its resuming call and possibly from call to return; timestamps come from the same auto-ticking clock")
+	r.Assume("late delivery: the re-arm loop evaluates unsuspended time for the instant its base timer carries; its estimate may be the true value of any instant between due and delivery, so firing, re-arm duration and reported duration are judged against that interval and lateness is bounded by the unsuspended time that passed during the injected delays")
 	r.Assume("fake runner returns status.FromContextError(ctx.Err()) when its context ends, as a gRPC client call does")
 	if f := r.ReplayFile(); f != "" {
 		var w struct {
@@ -67,6 +68,10 @@ func TestCheck(t *testing.T) {
 		r.Floor(s, 10)
 	}
 	r.Floor("later-action-on-same-clock", 5)
+	// Late delivery of base timer expiries (the value carries the due time).
+	r.Floor("expiry-delivered-after-complete-suspension", 10)
+	r.Floor("expiry-delivered-late-while-unsuspended", 10)
+	r.Floor("expiry-delivered-late-while-suspended", 10)
 	r.Floor("executor-deadline-exceeded", 5)
 	r.Floor("executor-finished-in-time", 5)
 
